@@ -4,6 +4,7 @@ import Spydr.Edif.Props.C03Closure
 import Spydr.Edif.Props.C03Fragment
 import Spydr.Edif.Props.C05Denote
 import Spydr.Edif.Props.C05Struct
+import Spydr.Edif.Props.C05Kw
 #print axioms Spydr.Edif.C05.readS_flatten
 #print axioms Spydr.Edif.C05.multibit_merge
 #print axioms Spydr.Edif.C05.multibit_merge_general
@@ -61,3 +62,8 @@ import Spydr.Edif.Props.C05Struct
 #print axioms Spydr.Edif.C05.reader_names_everything
 #print axioms Spydr.Edif.C05.distinct_of_noClash
 #print axioms Spydr.Edif.C05.reader_siblings_distinct
+#print axioms Spydr.Edif.C05.keyword_case_invisible
+#print axioms Spydr.Edif.C05.keyword_case_congr
+#print axioms Spydr.Edif.C05.keyword_respelling_invisible
+#print axioms Spydr.Edif.C05.edif_reader_spec_kwcase
+#print axioms Spydr.Edif.C05.edif_reader_spec_kwcase_text
